@@ -703,9 +703,27 @@ class PVLParser(object):
         ``set`` objects are non-hashable, they cannot be members of a set,
         however, ``frozenset`` objects can.
         """
-        return frozenset(
-            self._parse_set_seq(self.grammar.set_delimiters, tokens)
+        return self._make_set(
+            frozenset,
+            self._parse_set_seq(self.grammar.set_delimiters, tokens),
+            tokens,
         )
+
+    @staticmethod
+    def _make_set(set_cls, members: list, tokens: abc.Generator):
+        """Returns a *set_cls* of *members*.  If one of the *members*
+        cannot be a member of a Python set (a Sequence is decoded to
+        a ``list`` and an ODL Set to a ``set``, and neither is hashable),
+        a ValueError is thrown into *tokens*.
+        """
+        try:
+            return set_cls(members)
+        except TypeError as err:
+            tokens.throw(
+                ValueError,
+                "This Set has an element that cannot be held by a Python "
+                f"set ({err}) ",
+            )
 
     def parse_sequence(self, tokens: abc.Generator) -> list:
         """Parses a PVL Sequence.
@@ -875,7 +893,11 @@ class ODLParser(PVLParser):
         can be represented as a Python ``set`` (unlike PVL Sets,
         which must be represented as a Python ``frozenset`` objects).
         """
-        return set(self._parse_set_seq(self.grammar.set_delimiters, tokens))
+        return self._make_set(
+            set,
+            self._parse_set_seq(self.grammar.set_delimiters, tokens),
+            tokens,
+        )
 
     def parse_units(self, value, tokens: abc.Generator) -> str:
         """Extends the parent function, since ODL only allows units
